@@ -453,9 +453,17 @@ class TestNode(Runnable):
         :param worker: test worker with respect to which to consider various scopes
         """
         # by default only reentrancy of 1 is allowed independently of previous results
+        max_tries = self.params.get_numeric("max_tries", 1)
         max_concurrent_tries = self.params.get_numeric(
-            "max_concurrent_tries", self.params.get_numeric("max_tries", 1)
+            "max_concurrent_tries", max_tries
         )
+        if max_concurrent_tries <= max_tries:
+            # a worker can only join in with a try of its own so the tries that are already
+            # spent also bound the reentrancy (it has to wait for the last tries still running)
+            spent_tries = [r for r in self.shared_results if r["status"] != "UNKNOWN"]
+            max_concurrent_tries = min(
+                max_concurrent_tries, max_tries - len(spent_tries)
+            )
         return self.is_started(worker, max(max_concurrent_tries, 1))
 
     def is_flat(self) -> bool:
@@ -770,7 +778,7 @@ class TestNode(Runnable):
             # setup tests can be filtered across swarms
             test_statuses = [r["status"].lower() for r in self.shared_filtered_results]
             self.started_worker = old_started_worker
-        rerun_statuses_violated = {*test_statuses} - {*rerun_status}
+        rerun_statuses_violated = {*test_statuses} - {*rerun_status} - {"unknown"}
         if len(rerun_statuses_violated) > 0:
             logging.debug(
                 f"Stopping test tries due to violated rerun test statuses: {rerun_status}"
